@@ -56,15 +56,19 @@ enum Kind {
     BadVersion,
     Unsolicited,
     Stall,
+    /// The victim's whole node becomes unreachable without a word: its connections go
+    /// silent and new connection attempts hang; it heals when faults stop.
+    Partition,
 }
 
-const KINDS: [Kind; 6] = [
+const KINDS: [Kind; 7] = [
     Kind::Fin,
     Kind::Rst,
     Kind::Garbage,
     Kind::BadVersion,
     Kind::Unsolicited,
     Kind::Stall,
+    Kind::Partition,
 ];
 
 #[derive(Clone, Debug)]
@@ -164,7 +168,7 @@ fn inject(w: &mut World, conn: ConnId, kind: Kind, offset: usize, doomed: &mut V
     let base = w.conns[conn].s2c_sent;
     // Requests outstanding on the victim when the connection is killed or
     // poisoned *now* can never be answered on it.
-    let immediate = matches!(kind, Kind::BadVersion | Kind::Unsolicited)
+    let immediate = matches!(kind, Kind::BadVersion | Kind::Unsolicited | Kind::Partition)
         || (offset == 0 && matches!(kind, Kind::Fin | Kind::Rst | Kind::Stall));
     if immediate {
         doomed.extend(w.conns[conn].cql.outstanding_markers.values().copied());
@@ -234,6 +238,19 @@ fn inject(w: &mut World, conn: ConnId, kind: Kind, offset: usize, doomed: &mut V
             w.fault(Fault::Garbage);
             w.srv_send_now(conn, f, None);
             false
+        }
+        Kind::Partition => {
+            let node = w.conns[conn].node;
+            w.cluster.nodes[node].partitioned = true;
+            w.probe("partition");
+            for c in w.live_conns_of(node) {
+                if c != conn {
+                    let ms: Vec<u64> = w.conns[c].cql.outstanding_markers.values().copied().collect();
+                    doomed.extend(ms);
+                }
+                w.stall_conn(c);
+            }
+            true
         }
         Kind::Stall => {
             if offset == 0 {
@@ -472,6 +489,7 @@ async fn main(plan: Plan) -> Outcome {
         }
         out.count("background_runs", 1);
     }
+    let mut healed = false;
     // (d) recovery. Faults stop here: pending (not yet fired) cuts are disarmed.
     // Every dead connection is detected within keepalive interval + timeout and
     // its pool is refilled within the maximum reconnect back-off (10 s + jitter);
@@ -481,8 +499,16 @@ async fn main(plan: Plan) -> Outcome {
         for c in w.conns.iter_mut() {
             c.cut = None;
         }
+        // Partitions heal. A connection attempt begun just before hangs until the connect
+        // timeout (5 s) and is followed by the pool's back-off.
+        for n in w.cluster.nodes.iter_mut() {
+            if n.partitioned {
+                n.partitioned = false;
+                healed = true;
+            }
+        }
     }
-    world::sleep_ns(detection + 15 * SEC).await;
+    world::sleep_ns(detection + if healed { 30 } else { 15 } * SEC).await;
     for _ in 0..8 {
         idx += 1;
         let m = idx * 16;
